@@ -42,6 +42,27 @@ pub fn key_pool() -> Vec<Key> {
     v
 }
 
+/// long-running calls for the overlapping phase (no length bound in C16): operator chains of several hundred links, argument
+/// lists of several hundred values, nesting a hundred deep, loops at their caps
+pub fn heavy_pool() -> Vec<Key> {
+    let mut v = Vec::new();
+    for (e, ph) in [("f64", Val::F(0.5)), ("i64", Val::I(3)), ("dec", Val::D(Decimal::new(15, 1))), ("cpx", Val::C(Complex::new(0.5, -2.0))), ("num", Val::N(Number::Float(0.5)))] {
+        for n in [300usize, 700, 1200] {
+            v.push(Key { e, expr: format!("@{}", "+1".repeat(n)), ph: ph.clone() });
+            v.push(Key { e, expr: format!("@{}", "*1".repeat(n)), ph: ph.clone() });
+        }
+        v.push(Key { e, expr: format!("{}@{}", "(".repeat(120), ")".repeat(120)), ph: ph.clone() });
+        v.push(Key { e, expr: format!("{}@{}", "abs(".repeat(100), ")".repeat(100)), ph: ph.clone() });
+        if e != "cpx" {
+            v.push(Key { e, expr: format!("max({})+@", (1..400).map(|i| i.to_string()).collect::<Vec<_>>().join(",")), ph: ph.clone() });
+            v.push(Key { e, expr: format!("med({})+@", (1..300).rev().map(|i| i.to_string()).collect::<Vec<_>>().join(",")), ph: ph.clone() });
+            v.push(Key { e, expr: format!("avg(@,{}", "avg(1,2),".repeat(60) + "3)"), ph: ph.clone() });
+            v.push(Key { e, expr: "20!+19!+18!+@".to_string(), ph: ph.clone() });
+        }
+    }
+    v
+}
+
 pub fn isolated_canon(idx: usize) -> String {
     let pool = key_pool();
     let k = &pool[idx];
@@ -117,6 +138,40 @@ pub fn run(out: &mut Out, seed: u64, n_seq: usize, n_par: usize, threads: usize)
                 let k = &pool[*i];
                 out.finding("impure", k.e, &k.expr, &k.ph, &format!("the outcome of an isolated first-time evaluation: {}", iso[*i]), &format!("{} (thread {}, call {})", canon, t + 1, s), json!({"phase": "concurrent"}));
             }
+        }
+    }
+    // (d) heavy calls overlapping in time: long operator chains, long argument lists and deep nesting keep many calls in
+    // flight at the same instant on all threads (a resource shared between calls shows only then); each outcome must equal the
+    // one computed alone on one thread
+    let heavy = heavy_pool();
+    let alone: Vec<String> = heavy.iter().map(|k| call(k.e, &k.expr, &k.ph).0.canon()).collect();
+    out.stats.calls += heavy.len() as u64;
+    let rounds = (n_par / threads.max(1) / 40).max(20);
+    let barrier = std::sync::Barrier::new(threads);
+    let bad: Vec<Vec<(usize, String, usize)>> = std::thread::scope(|sc| {
+        let hs: Vec<_> = (0..threads).map(|t| {
+            let (heavy, alone, barrier) = (&heavy, &alone, &barrier);
+            sc.spawn(move || {
+                let mut rng = Rng(seed ^ (t as u64 + 77).wrapping_mul(0x9E3779B97F4A7C15));
+                let mut v = Vec::new();
+                barrier.wait();
+                for r in 0..rounds {
+                    let i = rng.below(heavy.len());
+                    let k = &heavy[i];
+                    let (o, _) = call(k.e, &k.expr, &k.ph);
+                    if o.canon() != alone[i] { v.push((i, o.canon(), r)); }
+                }
+                v
+            })
+        }).collect();
+        hs.into_iter().map(|h| h.join().unwrap()).collect()
+    });
+    out.stats.calls += (rounds * threads) as u64;
+    for (t, v) in bad.iter().enumerate() {
+        for (i, canon, r) in v {
+            let k = &heavy[*i];
+            let shown = if k.expr.chars().count() > 60 { format!("{}... ({} characters)", k.expr.chars().take(60).collect::<String>(), k.expr.chars().count()) } else { k.expr.clone() };
+            out.finding("impure", k.e, &shown, &k.ph, &format!("the outcome of the same call made alone: {}", alone[*i]), &format!("{} (thread {}, round {}, {} threads busy with long calls)", canon, t + 1, r, threads), json!({"phase": "heavy-concurrent"}));
         }
     }
     for k in 0..pool.len() { let key = h64(&(pool[k].e, &pool[k].expr, pool[k].ph.canon())); out.stats.distinct.insert(key); out.stats.nontrivial.insert(key); }
